@@ -16,6 +16,8 @@ constructors of `TreeToWal` (`Wawk.transpile`) and of the evaluator's `&&` (`and
 * `and_runs_iff_all` — for conditions that evaluate without error or side effect, `(&& c1 … cn)` is true exactly
   when every condition is truthy (so, with C15's `when` expansion and C04's `whenever` law, the action runs
   exactly at the indices where all conditions hold);
+* `pattern_runs_iff_all` — the same through the `if` the statement expands to: the action is evaluated iff all
+  conditions are truthy, otherwise nothing happens;
 * `chainl_value`, `chainl_snoc` — the reference reading "left to right": the value of `a o1 e1 … on en` is the left
   fold of the operators over the operand values;
 * `transpile_bin`, `transpile_chain_head` — an operator node transpiles to the operator applied to exactly two
@@ -105,6 +107,22 @@ theorem opAnd_runs_iff_all (rec : St → Sx → Res) (st : St) (cs : List Sx) (v
   cases cs with
   | nil => exact absurd rfl hne
   | cons c r => simpa using and_runs_iff_all rec st (c :: r) val h
+
+/-- **a pattern statement runs its action exactly where all its conditions hold**: `(when (&& c1 … cn) action)` expands
+    to `(if (&& c1 … cn) (do action))` (the expansion equation is C15, kernel-checked over the regenerated library); for an
+    evaluator that dispatches `&&` to its operator and conditions that evaluate neutrally, that `if` evaluates the action
+    iff every condition is truthy and otherwise does nothing (value none, state untouched) -/
+theorem pattern_runs_iff_all (rec : St → Sx → Res) (st : St) (cs : List Sx) (val : Sx → Sx) (action : Sx)
+    (h : Neutral rec st cs val) (hne : cs ≠ [])
+    (hd : rec st (.list false (.op .AND :: cs)) = opAnd rec st cs) :
+    opIf rec st [.list false (.op .AND :: cs), action] =
+      if cs.all (fun c => st.truthy (val c)) then rec st action else .ok (.none, st) := by
+  have hb : ∀ b : Bool, st.truthy (.bool b) = b := fun b => by cases b <;> rfl
+  simp only [opIf, hd, opAnd_runs_iff_all rec st cs val h hne, bind, Except.bind, hb]
+  by_cases ht : cs.all (fun c => st.truthy (val c)) = true
+  · simp [ht]
+  · simp only [Bool.not_eq_true] at ht
+    simp [ht, pure, Except.pure]
 
 /-! ## grouping: the reference reading and what `TreeToWal` builds from it -/
 
